@@ -41,7 +41,7 @@ class VF:
         return True
 
 
-_BIND_RX = re.compile(r"^(\S+?)\(\) (takes|missing|got)")
+_BIND_RX = re.compile(r"^(.+?)\(\) (takes|missing|got) ")
 
 
 def classify_exception(e, vf, dispatch_names=()):
